@@ -86,6 +86,14 @@ func idxAlphabet(extra bool) (calls []e1.Call, ids [][]interface{}) {
 	}
 	add(cBulk("d", "c", false, "updMany{a:5};ins{4,a:7.0};ins{8,a:1.0};upd{1->a:2};ins{5,a:2L}", bulk2), int32(4), int32(8), int32(5))
 	add(cBulk("d", "c", true, "updMany{a:5};ins{4,a:7.0};ins{8,a:1.0};upd{1->a:2};ins{5,a:2L}", bulk2), int32(4), int32(8), int32(5))
+	bulk3 := func() []mongo.WriteModel {
+		return []mongo.WriteModel{
+			mongo.NewReplaceOneModel().SetFilter(bD("_id", int32(1))).SetReplacement(bD("_id", int32(1), "a", int32(1))), // identical to the stored document when it is fresh
+			mongo.NewInsertOneModel().SetDocument(bD("_id", int32(6), "a", int32(60))),
+			mongo.NewUpdateOneModel().SetFilter(bD("_id", int32(1))).SetUpdate(bD("$set", bD("a", int32(1)))), // no-op update
+		}
+	}
+	add(cBulk("d", "c", true, "repl{1 identical};ins{6,a:60};upd{1 no-op}", bulk3), int32(6))
 	add(cInsertMany("d", "c", false, bD("_id", int32(5), "a", int32(7)), bD("_id", int32(6), "a", 7.0), bD("_id", int32(7), "a", int32(8))), int32(5), int32(6), int32(7))
 	add(cDelete("d", "c", false, bD("_id", int32(1))))
 	add(cDelete("d", "c", true, bD("a", int32(1))))
